@@ -1,6 +1,7 @@
 package main
 
 import (
+	"go/constant"
 	"fmt"
 	"go/token"
 	"go/types"
@@ -23,6 +24,7 @@ func init() {
 			ruleC17N4(r)
 			ruleNoSwallowedErrors(r, "N5", 5, true, "/transport", "/transport/compress", "/transport/quic", "/transport/websocket", "/transport/webtransport")
 			r.borrow("C13", func() { ruleC13F5(r) }) // the negotiated parameters, not the local defaults, decide the compression mode both ends run
+			ruleC17N6(r)
 		},
 	})
 }
@@ -440,6 +442,16 @@ func ruleC17N4(r *Run) {
 			return out
 		}
 		w, rd := width(mw, "Put"), width(rk, "")
+		// the reader may read its length prefixes in a helper (readLengthPrefixed)
+		allInstrs(rk, func(x ssa.Instruction) {
+			if c, isC := x.(*ssa.Call); isC {
+				if cal := c.Call.StaticCallee(); cal != nil && p.Analysed(cal) && fnPkgPath(cal) == fnPkgPath(rk) {
+					for k := range width(cal, "") {
+						rd[k] = true
+					}
+				}
+			}
+		})
 		same := len(w) == 1 && len(rd) == 1
 		for k := range w {
 			if !rd[k] {
@@ -447,6 +459,88 @@ func ruleC17N4(r *Run) {
 			}
 		}
 		r.Check("binary prefix width agrees", same, p.pos(mw.Pos()), fnName(mw), fmt.Sprintf("writer uses %v, reader uses %v", keysOf(w), keysOf(rd)))
+		// a clean end of the message is an EOF on a LENGTH read only: the error that is compared with io.EOF comes,
+		// unwrapped, only from ReadFull calls into a fixed-size (prefix) buffer — an EOF while reading a body that a
+		// prefix announced is a truncated message
+		var sources func(v ssa.Value, d int, out *[]*ssa.Call)
+		sources = func(v ssa.Value, d int, out *[]*ssa.Call) {
+			if d > 5 || v == nil {
+				return
+			}
+			switch x := v.(type) {
+			case *ssa.Extract:
+				if c, isC := x.Tuple.(*ssa.Call); isC {
+					if isCallNamed(c, "io.ReadFull") {
+						*out = append(*out, c)
+						return
+					}
+					if cal := c.Call.StaticCallee(); cal != nil && p.Analysed(cal) && cal.Blocks != nil {
+						allInstrs(cal, func(y ssa.Instruction) {
+							if ret, isRet := y.(*ssa.Return); isRet && x.Index < len(ret.Results) {
+								sources(ret.Results[x.Index], d+1, out)
+							}
+						})
+					}
+				}
+			case *ssa.Phi:
+				for _, e := range x.Edges {
+					sources(e, d+1, out)
+				}
+			case *ssa.UnOp:
+				if x.Op == token.MUL {
+					if a, isA := x.X.(*ssa.Alloc); isA && a.Referrers() != nil {
+						for _, ref := range *a.Referrers() {
+							if st, isSt := ref.(*ssa.Store); isSt && st.Addr == ssa.Value(a) {
+								sources(st.Val, d+1, out)
+							}
+						}
+					}
+				}
+			}
+		}
+		nEOF := 0
+		allInstrs(rk, func(x ssa.Instruction) {
+			bo, isBo := x.(*ssa.BinOp)
+			if !isBo || bo.Op != token.EQL {
+				return
+			}
+			var errV ssa.Value
+			isEOF := func(v ssa.Value) bool {
+				u, isU := v.(*ssa.UnOp)
+				if !isU || u.Op != token.MUL {
+					return false
+				}
+				g, isG := u.X.(*ssa.Global)
+				return isG && g.Pkg != nil && g.Pkg.Pkg.Path() == "io" && g.Name() == "EOF"
+			}
+			if isEOF(bo.Y) {
+				errV = bo.X
+			} else if isEOF(bo.X) {
+				errV = bo.Y
+			}
+			if errV == nil {
+				return
+			}
+			nEOF++
+			var srcs []*ssa.Call
+			sources(errV, 0, &srcs)
+			bad := ""
+			for _, c := range srcs {
+				fixed := false
+				if len(c.Call.Args) > 1 {
+					switch b := canonVal(c.Call.Args[1]).(type) {
+					case *ssa.MakeSlice:
+						_, fixed = b.Len.(*ssa.Const)
+					case *ssa.Slice:
+						_, fixed = b.X.(*ssa.Alloc)
+					}
+				}
+				if !fixed {
+					bad = posOf(p, c)
+				}
+			}
+			r.Check(fmt.Sprintf("%s clean end#%d only on a length read", fnName(rk), nEOF), bad == "" && len(srcs) > 0, posOf(p, bo), fnName(rk), "the error compared with io.EOF can be the unwrapped error of the body read at "+bad+": a message truncated right after a length prefix is then taken for a shorter, complete parameter set")
+		})
 	}
 }
 
@@ -457,4 +551,107 @@ func keysOf(m map[string]bool) []string {
 	}
 	sort.Strings(out)
 	return out
+}
+
+// ruleC17N6: each key stands for its own field. Where the key/value form is built by hand (m["reconnect"] = …), whether
+// a key is emitted may depend on the field that supplies its value and on nothing else: a key nested under the
+// presence test of ANOTHER field is silently dropped for parameter sets that lack that other field.
+func ruleC17N6(r *Run) {
+	r.Begin("N6", "each key depends on its own field only: in NegotiationParams.MarshalKeyValues (and the helpers it hands key and value to), every map insertion under a constant key is controlled only by conditions over the field its value is taken from", 0)
+	p := r.P
+	mk := r.method("/transport", "NegotiationParams", "MarshalKeyValues")
+	if mk == nil {
+		r.Check("hand-built key/value emissions", true, "", "", "MarshalKeyValues not found")
+		return
+	}
+	fieldLeaves := func(v ssa.Value) map[string]bool {
+		out := map[string]bool{}
+		for _, l := range p.Leaves(v, provOpts{}) {
+			if strings.HasPrefix(l, "field:/transport.NegotiationParams.") {
+				out[l] = true
+			}
+		}
+		return out
+	}
+	// conditions that decide whether ins runs: Ifs of its function with exactly one edge dominating it
+	controlling := func(ins ssa.Instruction) []*ssa.If {
+		var out []*ssa.If
+		allInstrs(ins.Parent(), func(x ssa.Instruction) {
+			ifs, ok := x.(*ssa.If)
+			if !ok {
+				return
+			}
+			a := edgeDominates(ifs.Block(), ifs.Block().Succs[0], ins.Block())
+			b := edgeDominates(ifs.Block(), ifs.Block().Succs[1], ins.Block())
+			if a != b {
+				out = append(out, ifs)
+			}
+		})
+		return out
+	}
+	n := 0
+	judge := func(key string, val ssa.Value, site ssa.Instruction) {
+		own := fieldLeaves(val)
+		ctl := controlling(site)
+		if len(own) == 0 {
+			// a constant value ("true"): the key's own field is the one its innermost condition tests
+			var inner *ssa.If
+			for _, ifs := range ctl {
+				if inner == nil || inner.Block().Dominates(ifs.Block()) {
+					inner = ifs
+				}
+			}
+			if inner != nil {
+				own = fieldLeaves(inner.Cond)
+			}
+		}
+		if len(own) == 0 {
+			return
+		}
+		n++
+		bad := ""
+		for _, ifs := range ctl {
+			for f := range fieldLeaves(ifs.Cond) {
+				if !own[f] {
+					bad = f[strings.LastIndexByte(f, '.')+1:]
+				}
+			}
+		}
+		r.Check(fmt.Sprintf("key %q depends on its own field", key), bad == "", posOf(p, site), fnName(site.Parent()), "the key is emitted only when field "+bad+" — not the field its value comes from — passes a test: a parameter set without "+bad+" loses this key")
+	}
+	allInstrs(mk, func(ins ssa.Instruction) {
+		switch x := ins.(type) {
+		case *ssa.MapUpdate:
+			if k, isK := x.Key.(*ssa.Const); isK && k.Value != nil && k.Value.Kind() == constant.String {
+				judge(constant.StringVal(k.Value), x.Value, x)
+			}
+		case *ssa.Call:
+			cal := x.Call.StaticCallee()
+			if cal == nil || !p.Analysed(cal) || cal.Blocks == nil {
+				return
+			}
+			// a put helper: (map, key, value): key constant here, value from a field
+			var key string
+			var val ssa.Value
+			for _, a := range x.Call.Args {
+				if k, isK := a.(*ssa.Const); isK && k.Value != nil && k.Value.Kind() == constant.String {
+					key = constant.StringVal(k.Value)
+				} else if len(fieldLeaves(a)) > 0 {
+					val = a
+				}
+			}
+			hasUpdate := false
+			allInstrs(cal, func(y ssa.Instruction) {
+				if _, isMU := y.(*ssa.MapUpdate); isMU {
+					hasUpdate = true
+				}
+			})
+			if key != "" && val != nil && hasUpdate {
+				judge(key, val, x)
+			}
+		}
+	})
+	if n == 0 {
+		r.Check("hand-built key/value emissions", true, "", "", "MarshalKeyValues does not insert keys by hand (the form is derived from the struct tags)")
+	}
 }
